@@ -248,6 +248,10 @@ var registry = []Harness{
 		Quick:    [][]int{{0, 7}, {1, 7}, {2, 7}, {3, 7}, {4, 7}, {5, 7}, {6, 7}, {7, 7}, {8, 7}, {9, 7}, {10, 7}},
 		Thorough: [][]int{{0, 7}, {1, 7}, {2, 7}, {3, 7}, {4, 7}, {5, 7}, {6, 7}, {7, 7}, {8, 7}, {9, 7}, {10, 7}, {4, 1}, {8, 1}, {4, 4}, {8, 4}},
 		Bound:    "the update gate harness of C16 for all 11 contracts at committee size param1: update has no effect without the documented majority (committee n/2+1; for NeoFS and Processing the majority of the DESIGNATED NeoFS Alphabet keys, which are not the committee's)"},
+	{Prop: "C03", Unwind: 64, Pkg: "neofs", Func: "VerifC17Ballots", Link: []string{"neofs", "processing"},
+		Quick:    [][]int{{0, 2, 4, 0}, {2, 2, 4, 0}, {3, 2, 4, 0}, {3, 2, 4, 2}},
+		Thorough: [][]int{{0, 2, 4, 0}, {1, 2, 4, 0}, {2, 2, 4, 0}, {3, 2, 4, 0}, {3, 2, 4, 2}, {0, 4, 4, 0}, {3, 4, 4, 0}},
+		Bound:    "the ballot harness of C17 (NeoFS without Notary; setConfig / alphabetUpdate / innerRingCandidateRemove, two stored keys, four invocations by symbolic callers): a vote-collected action has no effect before floor(2n/3)+1 distinct Alphabet keys voted for it — a single member cannot act alone, whatever was decided before"},
 	{Prop: "C03", Pkg: "proxy", Func: "VerifC03Verify", Link: []string{"alphabet", "netmap", "neofs", "processing", "proxy"},
 		Quick: [][]int{{5}, {6}, {7}}, Thorough: [][]int{{1}, {2}, {3}, {4}, {5}, {6}, {7}},
 		Bound: "verify of Proxy, Alphabet and Processing with the same symbolic signer set"},
@@ -277,10 +281,10 @@ var registry = []Harness{
 	{Prop: "C16", Pkg: "audit", Func: "VerifC16MigrateAudit", Link: []string{"audit"},
 		Quick: [][]int{{0, 1}, {0, 2}, {1, 0}},
 		Bound: "Audit storage of an older release preset raw: two results of two Inner Ring members under their ids (symbolic epochs 1..127, container ids, tails), the Netmap hash older releases stored, era param0 (0: v in [0.15.4,0.17.0) with the notary flag false/true = param1 1/2 — Audit never collected votes, there are no ballots —, 1: [0.17.0,current)), symbolic version inside the era; get, list (which enumerates every storage key), listByEpoch, then one more put"},
-	{Prop: "C16", Pkg: "netmap", Func: "VerifC16MigrateNetmap", Link: []string{"netmap", "probe1", "probe2"},
-		Quick:    [][]int{{0, 8}, {0, 0}, {0, 1}, {0, 2}, {0, 3}, {0, 4}, {0, 5}, {0, 6}, {0, 7}, {1, 0}, {1, 2}, {1, 4}, {1, 5}, {1, 6}, {2, 0}},
-		Thorough: [][]int{{0, 8}, {0, 0}, {0, 1}, {0, 2}, {0, 3}, {0, 4}, {0, 5}, {0, 6}, {0, 7}, {1, 0}, {1, 1}, {1, 2}, {1, 3}, {1, 4}, {1, 5}, {1, 6}, {1, 7}, {2, 0}},
-		Bound:    "LEGACY Netmap storage preset raw (not producible by the current code): era param0 (0: v in [0.15.4,0.16.0) one-field snapshot nodes and {{BLOB},state} candidates; 1: [0.16,0.17); 2: [0.17,0.19)), notary flag param1 (absent / false / true without ballots / true with a stale ballot / true with a pending ballot / true with a ballot whose last vote is a symbolic 15..25 blocks before the update: refused iff <= 20, witnesses at exactly 20 and 21 replayed / true with two ballots, a pending one before or after a stale one; 8 (era 0): false, and a history extended from 2 to 4 snapshots and not refilled, i.e. a ring with missing slots in the middle); symbolic version inside the era, epoch 1..1000, current snapshot id, two candidates with symbolic states 1..3, 3-byte-symbolic node blobs, one config value; the working tree's _deploy(data||v, true) runs on it; replay: a stand-in contract of the same manifest name receives the raw items and is updated to the real NEF"},
+	{Prop: "C16", Unwind: 260, Pkg: "netmap", Func: "VerifC16MigrateNetmap", Link: []string{"netmap", "probe1", "probe2"},
+		Quick:    [][]int{{0, 9}, {1, 9}, {2, 9}, {0, 8}, {0, 0}, {0, 1}, {0, 2}, {0, 3}, {0, 4}, {0, 5}, {0, 6}, {0, 7}, {1, 0}, {1, 2}, {1, 4}, {1, 5}, {1, 6}, {2, 0}},
+		Thorough: [][]int{{0, 9}, {1, 9}, {2, 9}, {0, 8}, {0, 0}, {0, 1}, {0, 2}, {0, 3}, {0, 4}, {0, 5}, {0, 6}, {0, 7}, {1, 0}, {1, 1}, {1, 2}, {1, 3}, {1, 4}, {1, 5}, {1, 6}, {1, 7}, {2, 0}},
+		Bound:    "LEGACY Netmap storage preset raw (not producible by the current code): era param0 (0: v in [0.15.4,0.16.0) one-field snapshot nodes and {{BLOB},state} candidates; 1: [0.16,0.17); 2: [0.17,0.19)), notary flag param1 (absent / false / true without ballots / true with a stale ballot / true with a pending ballot / true with a ballot whose last vote is a symbolic 15..25 blocks before the update: refused iff <= 20, witnesses at exactly 20 and 21 replayed / true with two ballots, a pending one before or after a stale one; 8 (era 0): false, and a history extended from 2 to 4 snapshots and not refilled, i.e. a ring with missing slots in the middle; 9 (all eras): false, and a history of 200 snapshots with the current one in slot 129 and the previous in slot 128); symbolic version inside the era, epoch 1..1000, current snapshot id, two candidates with symbolic states 1..3, 3-byte-symbolic node blobs, one config value; the working tree's _deploy(data||v, true) runs on it; replay: a stand-in contract of the same manifest name receives the raw items and is updated to the real NEF"},
 }
 
 func c03Params(sizes []int) [][]int {
